@@ -527,7 +527,7 @@ class SimLoop(base_events.BaseEventLoop):
         self.task_index = {}
         self.set_task_factory(self._task_factory)
         self.current_owner = "server"   # who creates listeners/connections right now
-        self.sched_hook = None
+        self.iter_hook = None     # callback(iteration) at the start of every select()
 
     # -- bookkeeping -------------------------------------------------------
     def _on_error(self, loop, context):
@@ -546,6 +546,8 @@ class SimLoop(base_events.BaseEventLoop):
         self.iterations += 1
         if self.iterations > self.max_iterations:
             raise Livelock(f"more than {self.max_iterations} loop iterations")
+        if self.iter_hook is not None:
+            self.iter_hook(self.iterations)
         ch = self.chooser
         net = self.net
         en = net.enabled()
